@@ -75,6 +75,14 @@ impl<'a> AnalyzeContext<'a, '_> {
             AssignmentType::Signal,
             diagnostics,
         ))?;
+        if let Some(delay_mechanism) = &mut assignment.delay_mechanism {
+            if let DelayMechanism::Inertial {
+                reject: Some(ref mut expr),
+            } = delay_mechanism.item
+            {
+                self.expr_with_ttyp(scope, self.time(), expr, diagnostics)?;
+            }
+        }
         match &mut assignment.rhs {
             AssignmentRightHand::Simple(wavf) => {
                 self.analyze_waveform(scope, ttyp, wavf, diagnostics)?;
